@@ -11,6 +11,7 @@ From MV Require Import Base Num NumLaws Lifecycle Lifecycle_Proofs Lifecycle_Mon
 Section C17.
 Context {N : Num}.
 Variable ML : MonoLaws N.
+Let TL : TransLaws N := TransLaws_of_OrdLaws (ml_ord N ML).
 
 Notation FD K e xs := (first_drift (trace (init K e) xs)).
 
@@ -35,7 +36,7 @@ Proof.
   apply (first_drift_monotone eddm_e bool (fun _ => eddm_e0) PolFirstWarn
            (eddm_step (eddm_with_drift p t1)) (eddm_step (eddm_with_drift p t2)) eq).
   - intros e1 e2 n x <-. apply eddm_same_state. reflexivity.
-  - intros e1 e2 n x <- Hnd. exact (eddm_drift_same_otherwise ML p t1 t2 e1 n x Ht Hnd).
+  - intros e1 e2 n x <- Hnd. exact (eddm_drift_same_otherwise TL p t1 t2 e1 n x Ht Hnd).
   - unfold srel, init; simpl. repeat split.
   - simpl. discriminate.
 Qed.
@@ -48,7 +49,7 @@ Proof.
   apply (first_drift_monotone stepd_e (bool * F N)%type (fun _ => stepd_e0) PolRun
            (stepd_step (stepd_with_drift p a1)) (stepd_step (stepd_with_drift p a2)) eq).
   - intros e1 e2 n x <-. apply stepd_same_state. reflexivity.
-  - intros e1 e2 n x <- Hnd. exact (stepd_drift_same_otherwise ML p a1 a2 e1 n x Ha Hnd).
+  - intros e1 e2 n x <- Hnd. exact (stepd_drift_same_otherwise TL p a1 a2 e1 n x Ha Hnd).
   - unfold srel, init; simpl. repeat split.
   - simpl. discriminate.
 Qed.
@@ -61,7 +62,7 @@ Proof.
   apply (first_drift_monotone cusum_e (F N) (cusum_reset (cusum_with_thr p t1)) PolNoRecs
            (cusum_step (cusum_with_thr p t1)) (cusum_step (cusum_with_thr p t2)) eq).
   - intros e1 e2 n x <-. apply cusum_same_state.
-  - intros e1 e2 n x <- Hnd. exact (cusum_drift_same_otherwise ML p t1 t2 e1 n x Ht Hnd).
+  - intros e1 e2 n x <- Hnd. exact (cusum_drift_same_otherwise TL p t1 t2 e1 n x Ht Hnd).
   - unfold srel, init; simpl. repeat split.
   - simpl. discriminate.
 Qed.
@@ -113,9 +114,9 @@ Proof.
   apply (warning_loosening eddm_e bool (fun _ => eddm_e0) PolFirstWarn
            (eddm_step (eddm_with_warn p w1)) (eddm_step (eddm_with_warn p w2))).
   - intros e n x. apply eddm_same_state. reflexivity.
-  - intros e n x. exact (proj1 (eddm_warn_obligations ML p w1 w2 e n x Hw)).
-  - intros e n x. exact (proj1 (proj2 (eddm_warn_obligations ML p w1 w2 e n x Hw))).
-  - intros e n x. exact (proj2 (proj2 (eddm_warn_obligations ML p w1 w2 e n x Hw))).
+  - intros e n x. exact (proj1 (eddm_warn_obligations TL p w1 w2 e n x Hw)).
+  - intros e n x. exact (proj1 (proj2 (eddm_warn_obligations TL p w1 w2 e n x Hw))).
+  - intros e n x. exact (proj2 (proj2 (eddm_warn_obligations TL p w1 w2 e n x Hw))).
   - unfold wrel, init; simpl. repeat split; intros; congruence.
 Qed.
 
@@ -126,13 +127,87 @@ Proof.
   apply (warning_loosening stepd_e (bool * F N)%type (fun _ => stepd_e0) PolRun
            (stepd_step (stepd_with_warn p a1)) (stepd_step (stepd_with_warn p a2))).
   - intros e n x. apply stepd_same_state. reflexivity.
-  - intros e n x. exact (proj1 (stepd_warn_obligations ML p a1 a2 e n x Ha)).
-  - intros e n x. exact (proj1 (proj2 (stepd_warn_obligations ML p a1 a2 e n x Ha))).
-  - intros e n x. exact (proj2 (proj2 (stepd_warn_obligations ML p a1 a2 e n x Ha))).
+  - intros e n x. exact (proj1 (stepd_warn_obligations TL p a1 a2 e n x Ha)).
+  - intros e n x. exact (proj1 (proj2 (stepd_warn_obligations TL p a1 a2 e n x Ha))).
+  - intros e n x. exact (proj2 (proj2 (stepd_warn_obligations TL p a1 a2 e n x Ha))).
   - unfold wrel, init; simpl. repeat split; intros; congruence.
 Qed.
 
 End C17.
+
+(** For EDDM, STEPD and CUSUM the proofs use nothing but transitivity of the comparisons, which holds
+    for ALL IEEE doubles, NaN included (FloatLaws.v, from the specification of Coq's primitive floats):
+    for the bit-exact float model these results are unconditional. *)
+From MV Require Import NumFloat FloatLaws.
+From Coq Require Import PrimFloat.
+
+Definition TransLawsFloat : TransLaws NumFloat :=
+  Build_TransLaws NumFloat float_leb_trans float_ltb_leb_trans float_leb_ltb_trans.
+
+Section C17_float.
+Notation FD K e xs := (first_drift (trace (init K e) xs)).
+
+Theorem C17_eddm_drift_thresh_float : forall (p : @eddm_params NumFloat) (t1 t2 : float) xs, PrimFloat.leb t2 t1 = true ->
+  opt_le (FD (EDDM (eddm_with_drift p t1)) eddm_e0 xs) (FD (EDDM (eddm_with_drift p t2)) eddm_e0 xs).
+Proof.
+  intros p t1 t2 xs Ht.
+  apply (first_drift_monotone eddm_e bool (fun _ => eddm_e0) PolFirstWarn
+           (eddm_step (eddm_with_drift p t1)) (eddm_step (eddm_with_drift p t2)) eq).
+  - intros e1 e2 n x <-. apply eddm_same_state. reflexivity.
+  - intros e1 e2 n x <- Hnd. exact (eddm_drift_same_otherwise TransLawsFloat p t1 t2 e1 n x Ht Hnd).
+  - unfold srel, init; simpl. repeat split.
+  - simpl. discriminate.
+Qed.
+
+Theorem C17_stepd_alpha_drift_float : forall (p : @stepd_params NumFloat) (a1 a2 : float) xs, PrimFloat.leb a2 a1 = true ->
+  opt_le (FD (STEPD (stepd_with_drift p a1)) stepd_e0 xs) (FD (STEPD (stepd_with_drift p a2)) stepd_e0 xs).
+Proof.
+  intros p a1 a2 xs Ha.
+  apply (first_drift_monotone stepd_e (bool * float)%type (fun _ => stepd_e0) PolRun
+           (stepd_step (stepd_with_drift p a1)) (stepd_step (stepd_with_drift p a2)) eq).
+  - intros e1 e2 n x <-. apply stepd_same_state. reflexivity.
+  - intros e1 e2 n x <- Hnd. exact (stepd_drift_same_otherwise TransLawsFloat p a1 a2 e1 n x Ha Hnd).
+  - unfold srel, init; simpl. repeat split.
+  - simpl. discriminate.
+Qed.
+
+Theorem C17_cusum_threshold_float : forall (p : @cusum_params NumFloat) tg sd (t1 t2 : float) xs, PrimFloat.leb t1 t2 = true ->
+  opt_le (FD (CUSUM (cusum_with_thr p t1)) (cusum_e0 tg sd) xs) (FD (CUSUM (cusum_with_thr p t2)) (cusum_e0 tg sd) xs).
+Proof.
+  intros p tg sd t1 t2 xs Ht.
+  apply (first_drift_monotone cusum_e float (cusum_reset (cusum_with_thr p t1)) PolNoRecs
+           (cusum_step (cusum_with_thr p t1)) (cusum_step (cusum_with_thr p t2)) eq).
+  - intros e1 e2 n x <-. apply cusum_same_state.
+  - intros e1 e2 n x <- Hnd. exact (cusum_drift_same_otherwise TransLawsFloat p t1 t2 e1 n x Ht Hnd).
+  - unfold srel, init; simpl. repeat split.
+  - simpl. discriminate.
+Qed.
+Theorem C17_eddm_warning_thresh_float : forall (p : @eddm_params NumFloat) (w1 w2 : float) xs, PrimFloat.leb w2 w1 = true ->
+  warn_conclusion (trace (init (EDDM (eddm_with_warn p w1)) eddm_e0) xs) (trace (init (EDDM (eddm_with_warn p w2)) eddm_e0) xs).
+Proof.
+  intros p w1 w2 xs Hw.
+  apply (warning_loosening eddm_e bool (fun _ => eddm_e0) PolFirstWarn
+           (eddm_step (eddm_with_warn p w1)) (eddm_step (eddm_with_warn p w2))).
+  - intros e n x. apply eddm_same_state. reflexivity.
+  - intros e n x. exact (proj1 (eddm_warn_obligations TransLawsFloat p w1 w2 e n x Hw)).
+  - intros e n x. exact (proj1 (proj2 (eddm_warn_obligations TransLawsFloat p w1 w2 e n x Hw))).
+  - intros e n x. exact (proj2 (proj2 (eddm_warn_obligations TransLawsFloat p w1 w2 e n x Hw))).
+  - unfold wrel, init; simpl. repeat split; intros; congruence.
+Qed.
+
+Theorem C17_stepd_alpha_warning_float : forall (p : @stepd_params NumFloat) (a1 a2 : float) xs, PrimFloat.leb a2 a1 = true ->
+  warn_conclusion (trace (init (STEPD (stepd_with_warn p a1)) stepd_e0) xs) (trace (init (STEPD (stepd_with_warn p a2)) stepd_e0) xs).
+Proof.
+  intros p a1 a2 xs Ha.
+  apply (warning_loosening stepd_e (bool * float)%type (fun _ => stepd_e0) PolRun
+           (stepd_step (stepd_with_warn p a1)) (stepd_step (stepd_with_warn p a2))).
+  - intros e n x. apply stepd_same_state. reflexivity.
+  - intros e n x. exact (proj1 (stepd_warn_obligations TransLawsFloat p a1 a2 e n x Ha)).
+  - intros e n x. exact (proj1 (proj2 (stepd_warn_obligations TransLawsFloat p a1 a2 e n x Ha))).
+  - intros e n x. exact (proj2 (proj2 (stepd_warn_obligations TransLawsFloat p a1 a2 e n x Ha))).
+  - unfold wrel, init; simpl. repeat split; intros; congruence.
+Qed.
+End C17_float.
 
 (** the hypothesis is satisfiable: the real numbers *)
 Theorem C17_laws_satisfiable : MonoLaws NumR.
@@ -147,3 +222,8 @@ Print Assumptions C17_ddm_warning_scale.
 Print Assumptions C17_eddm_warning_thresh.
 Print Assumptions C17_stepd_alpha_warning.
 Print Assumptions C17_laws_satisfiable.
+Print Assumptions C17_eddm_drift_thresh_float.
+Print Assumptions C17_stepd_alpha_drift_float.
+Print Assumptions C17_cusum_threshold_float.
+Print Assumptions C17_eddm_warning_thresh_float.
+Print Assumptions C17_stepd_alpha_warning_float.
